@@ -68,6 +68,11 @@ type scen struct {
 	Nested  bool           `json:"nested,omitempty"` // inside a transaction: wrapped in authz.MsgExec(grantee = its signer)
 	Tx      []scen         `json:"tx,omitempty"`     // kind "tx": the messages of one transaction, in order
 	Pre     []scen         `json:"pre,omitempty"`    // honest deliveries that set the scene (must succeed)
+	Erc     string         `json:"erc,omitempty"`    // ERC20 contract as submitted (SetERC20ToTokenDenom / governance mapping)
+	TxID    uint64         `json:"tx_id,omitempty"`  // pending-transfer id as submitted (CancelSendToRemote)
+	Mod     string         `json:"mod,omitempty"`    // kind "genesis": the module whose state goes through ExportGenesis -> InitGenesis
+	Env     int            `json:"env,omitempty"`    // kind "hist": 1 = skyway environment, 2 = tokenfactory / paloma environment
+	Hist    []scen         `json:"hist,omitempty"`   // kind "hist": an object history, every step delivered like a single case
 }
 
 type built struct {
@@ -76,6 +81,10 @@ type built struct {
 	biz    bool    // valid apart from who signs / is named
 	ext    []int   // actors whose external-chain signature over the item is carried and valid
 	fields []string // identity fields given to the model, in order
+	// actors that merely appear in the name of the token denom the message refers to
+	// (factory/<creator of the denom>/<sub>) while the message's creator is its admin: the admin
+	// role was handed over by them, what moves is the admin's
+	nameOnly []int
 }
 
 func (e *env) meta(s scen) vtypes.MsgMetadata {
@@ -169,8 +178,16 @@ func (e *env) build(t *testing.T, s scen) (*built, error) {
 		b.run = func(ctx sdk.Context) error { _, err := e.skyway.EstimateBatchGas(ctx, m); return err }
 	case "skyway.MsgSetERC20MappingProposal":
 		a := nm("Authority")
-		m := &skywaytypes.MsgSetERC20MappingProposal{Authority: addr(a), Metadata: md, Mappings: []skywaytypes.MsgSetERC20MappingProposal_ERC20ToDenomMapping{
-			{ChainReferenceId: chain, Erc20: "0x5555555555555555555555555555555555555555", Denom: "uother"}}}
+		mp := skywaytypes.MsgSetERC20MappingProposal_ERC20ToDenomMapping{ChainReferenceId: chain, Erc20: "0x5555555555555555555555555555555555555555", Denom: "uother"}
+		if s.Erc != "" {
+			mp.Erc20 = s.Erc
+			if s.Of >= 0 {
+				mp.Denom = fmt.Sprintf("factory/%s/%s", addr(s.Of), s.ID)
+			} else {
+				mp.Denom = s.ID
+			}
+		}
+		m := &skywaytypes.MsgSetERC20MappingProposal{Authority: addr(a), Metadata: md, Mappings: []skywaytypes.MsgSetERC20MappingProposal_ERC20ToDenomMapping{mp}}
 		b.msg, b.biz = m, true
 		b.fields = []string{"Authority"}
 		b.run = func(ctx sdk.Context) error { _, err := e.skyway.SetERC20MappingProposal(ctx, m); return err }
@@ -179,10 +196,36 @@ func (e *env) build(t *testing.T, s scen) (*built, error) {
 		b.msg, b.biz = m, true
 		b.run = func(ctx sdk.Context) error { _, err := e.skyway.OverrideNonceProposal(ctx, m); return err }
 	case "skyway.MsgSendToRemote":
-		m := &skywaytypes.MsgSendToRemote{EthDest: "0x4444444444444444444444444444444444444444", Amount: sdk.NewInt64Coin("ugrain", 5),
+		coin := sdk.NewInt64Coin("ugrain", 5)
+		if s.ID != "" && s.Of < 0 {
+			coin = sdk.NewInt64Coin(s.ID, 5)
+		} else if s.ID != "" {
+			coin = sdk.NewInt64Coin(fmt.Sprintf("factory/%s/%s", addr(s.Of), s.ID), 5)
+		}
+		m := &skywaytypes.MsgSendToRemote{EthDest: "0x4444444444444444444444444444444444444444", Amount: coin,
 			ChainReferenceId: chain, Metadata: md}
 		b.msg, b.biz = m, isVal(s.Creator) // only the validators' accounts hold ugrain here
 		b.run = func(ctx sdk.Context) error { _, err := e.skyway.SendToRemote(ctx, m); return err }
+	case "skyway.MsgSetERC20ToTokenDenom":
+		denom := fmt.Sprintf("factory/%s/%s", addr(s.Of), s.ID)
+		m := &skywaytypes.MsgSetERC20ToTokenDenom{Metadata: md, Denom: denom, ChainReferenceId: chain, Erc20: s.Erc}
+		b.msg = m
+		// valid apart from identity: the creator administers the denom and the contract is not bound yet
+		// (the harness's own reading of the two stores, before the delivery)
+		adm, _ := e.tfK.GetAuthorityMetadata(e.ctx, denom)
+		free := false
+		if ea, err := skywaytypes.NewEthAddress(s.Erc); err == nil {
+			d, _ := e.skywayK.GetDenomOfERC20(e.ctx, chain, *ea)
+			free = d == ""
+		}
+		b.biz = s.Creator >= 0 && adm.Admin == md.Creator && free
+		b.run = func(ctx sdk.Context) error { _, err := e.skyway.SetERC20ToTokenDenom(ctx, m); return err }
+	case "skyway.MsgCancelSendToRemote":
+		m := &skywaytypes.MsgCancelSendToRemote{Metadata: md, TransactionId: s.TxID}
+		b.msg = m
+		tx, err := e.skywayK.GetUnbatchedTxById(e.ctx, s.TxID)
+		b.biz = err == nil && tx != nil && s.Creator >= 0 && tx.Sender.Equals(e.actors[s.Creator])
+		b.run = func(ctx sdk.Context) error { _, err := e.skyway.CancelSendToRemote(ctx, m); return err }
 	case "treasury.MsgUpsertRelayerFee":
 		v := nm("FeeSetting.ValAddress")
 		va := "not-an-address"
@@ -313,6 +356,14 @@ func (e *env) build(t *testing.T, s scen) (*built, error) {
 		}
 	default:
 		return nil, fmt.Errorf("kind %s not driven", s.Kind)
+	}
+	switch s.Kind {
+	case "tokenfactory.MsgMint", "tokenfactory.MsgBurn", "tokenfactory.MsgChangeAdmin", "skyway.MsgSetERC20ToTokenDenom":
+		if s.Of >= 0 && s.Of < nActors && s.Of != s.Creator && s.Creator >= 0 {
+			if adm, err := e.tfK.GetAuthorityMetadata(e.ctx, fmt.Sprintf("factory/%s/%s", addr(s.Of), s.ID)); err == nil && adm.Admin == md.Creator {
+				b.nameOnly = []int{s.Of}
+			}
+		}
 	}
 	return b, nil
 }
@@ -450,7 +501,11 @@ func (e *env) deliver(b *built, s scen) obs {
 }
 
 // the property's direct oracle on the real run
-func oracle(run *emit.Run, s scen, b *built, o obs) {
+func oracle(run *emit.Run, s scen, b *built, o obs) { oracleR(run, s, b, o, s) }
+
+// oracleR: the same with the replay object given separately (a step of a history is replayed by
+// replaying the history).
+func oracleR(run *emit.Run, s scen, b *built, o obs, replay any) {
 	granted := func(granter, grantee int) bool {
 		for _, g := range s.Grants {
 			if g[0] == granter && g[1] == grantee {
@@ -466,7 +521,7 @@ func oracle(run *emit.Run, s scen, b *built, o obs) {
 		}
 	}
 	if o.Ante && !authorisedCreator {
-		run.Violate("C03:ante-accepts-unauthorised-signer", fmt.Sprintf("decorator accepted %s: no signer is the creator or holds its fee grant", s.Kind), s)
+		run.Violate("C03:ante-accepts-unauthorised-signer", fmt.Sprintf("decorator accepted %s: no signer is the creator or holds its fee grant", s.Kind), replay)
 	}
 	if !o.Ok {
 		return
@@ -475,6 +530,9 @@ func oracle(run *emit.Run, s scen, b *built, o obs) {
 	for _, p := range o.Touched {
 		if p == s.Creator && authorisedCreator {
 			continue
+		}
+		if s.Creator == idxGov && authorisedCreator && sk == 0 {
+			continue // the governance authority itself authorised the message: it may change anybody's state
 		}
 		just := false
 		for _, sg := range s.Signers {
@@ -496,6 +554,11 @@ func oracle(run *emit.Run, s scen, b *built, o obs) {
 				just = true
 			}
 		}
+		for _, x := range b.nameOnly {
+			if x == p {
+				just = true // p only appears in the NAME of a denom that the creator administers
+			}
+		}
 		if p == idxGov && sk == 1 && s.Named["Authority"] == idxGov {
 			just = true // the authority itself signed (SDK resolves the signer from `authority`)
 		}
@@ -504,7 +567,7 @@ func oracle(run *emit.Run, s scen, b *built, o obs) {
 		}
 		if !just {
 			run.Violate("C03:"+s.Kind+":"+field,
-				fmt.Sprintf("%s signed by %v (creator %d) changed state attributed to actor %d named by %s, who neither signed, granted nor externally signed", s.Kind, s.Signers, s.Creator, p, field), s)
+				fmt.Sprintf("%s signed by %v (creator %d) changed state attributed to actor %d named by %s, who neither signed, granted nor externally signed", s.Kind, s.Signers, s.Creator, p, field), replay)
 		}
 	}
 }
@@ -1232,6 +1295,10 @@ func TestCorr(t *testing.T) {
 				runTx(t, run, s, true)
 				continue
 			}
+			if s.Kind == "hist" {
+				runHist(t, run, s, true)
+				continue
+			}
 			runOne(t, run, s, true)
 		}
 	}
@@ -1297,12 +1364,16 @@ func TestCorr(t *testing.T) {
 			runTx(t, run, genTx(run.Rng), false)
 			continue
 		}
+		if i%4 == 1 {
+			runHist(t, run, genHist(run.Rng, 1+(i/4)%2), false)
+			continue
+		}
 		kind := drivenKinds[run.Rng.Intn(len(drivenKinds))]
 		hostile := run.Rng.Intn(100) < 15 || (search && run.Rng.Intn(3) == 0)
 		s := genScen(run.Rng, kind, hostile)
 		runOne(t, run, s, false)
 	}
-	if err := run.Finish("Auth.Discipline Auth.Ante Corr.C03", "C03.case", "C03.check"); err != nil {
+	if err := run.Finish("Auth.Discipline Auth.Ante Auth.Objects Corr.C03", "C03.case", "C03.check"); err != nil {
 		t.Fatal(err)
 	}
 	_ = strings.TrimSpace
